@@ -538,24 +538,44 @@ func c15ToFloat(c *hx.Ctx, r *hx.RNG) {
 		}
 	}
 	sameF := func(a, b float64) bool { return a == b && math.Signbit(a) == math.Signbit(b) }
-	kfV, kfA := "", ""
+	kfV := ""
 	if inBandValue {
 		kfV = "float_double_rounding_band"
 	}
-	if inBandAcc || inBandValue {
-		kfA = "float_double_rounding_band"
-	}
-	if inBandValue || inBandAcc {
+	_ = inBandAcc
+	if inBandValue {
 		c.Count("tofloat_inside_double_rounding_band", 1)
 	} else if v.Form == oracle.Finite {
 		c.Count("tofloat_outside_double_rounding_band", 1)
+	}
+	// The accuracy is the sign of (returned - x): it is judged against the value that was returned, whether or not that
+	// is the nearest one, so no known finding applies to it.
+	if v.Form == oracle.Finite && !math.IsNaN(got) {
+		racc := 0
+		switch {
+		case math.IsInf(got, 1):
+			racc = 1
+		case math.IsInf(got, -1):
+			racc = -1
+		case got == 0: // (also for x far below the format's range, whose exact rational is not materialised)
+			racc = map[bool]int{false: -1, true: 1}[v.Neg]
+		case v.LeadExp() > 400 || v.LeadExp() < -400:
+			racc = map[bool]int{false: -1, true: 1}[(got > 0) == (v.LeadExp() < 0)] // finite and non-zero here: a wrong value, reported below
+		default:
+			racc = new(big.Rat).SetFloat64(got).Cmp(valRat(v))
+		}
+		c.Count("tofloat_accuracy_judged_against_returned_value", 1)
+		if int(acc) != racc {
+			c.Violate("wrong-accuracy", fmt.Sprintf("%s = %v with accuracy %s, sign(returned - x) is %s", what, got, accName(int(acc)), accName(racc)), "")
+			return
+		}
 	}
 	if !sameF(got, want) {
 		c.Violate("not-nearest", fmt.Sprintf("%s = %v (%#x), nearest is %v (%#x)", what, got, math.Float64bits(got), want, math.Float64bits(want)), kfV)
 		return
 	}
 	if int(acc) != wacc {
-		c.Violate("wrong-accuracy", fmt.Sprintf("%s = %v with accuracy %s, sign(returned - x) is %s", what, got, accName(int(acc)), accName(wacc)), kfA)
+		c.Violate("wrong-accuracy", fmt.Sprintf("%s = %v with accuracy %s, sign(returned - x) is %s", what, got, accName(int(acc)), accName(wacc)), "")
 	}
 }
 
